@@ -43,7 +43,7 @@ Lemma filter_map_const {A B} (p : B -> bool) (f : A -> B) b l : (forall x, p (f 
   filter p (map f l) = if b then map f l else [].
 Proof. intros H. induction l as [|x t IH]; cbn [map filter]; [now destruct b|]. rewrite H, IH. now destruct b. Qed.
 
-Theorem bip_nx_identity G : gio_wf G -> io_kind G = KBipartite ->
+Theorem bip_nx_identity G : gio_wf G -> io_kind G = GioBipartite ->
   gio_bip_from_nx gt_str_eqb (io_name G) (bip_nodes (io_n G) (io_r G)) (bip_edges (io_n G) (io_edges G)) = GOk G.
 Proof.
   intros (Hn & Hr & _ & Hs & Hf) HK. unfold gio_bip_from_nx.
@@ -62,7 +62,7 @@ Proof.
   assert (Hedge : forall u v, In (u, v) (io_edges G) -> 1 <= u <= L /\ 1 <= v <= R).
   { intros u v Hin. pose proof (Hf _ Hin) as Hok. unfold edge_stored_ok in Hok. rewrite HK in Hok. exact Hok. }
   match goal with |- ?F _ _ = _ => set (go := F) end.
-  assert (Hgo : forall es B, io_kind B = KBipartite -> io_n B = L -> io_r B = R ->
+  assert (Hgo : forall es B, io_kind B = GioBipartite -> io_n B = L -> io_r B = R ->
                  (forall u v, In (u, v) es -> 1 <= u <= L /\ 1 <= v <= R) ->
                  go B (bip_edges L es) = GOk (gio_with_edges B (insert_all es (io_edges B)))).
   { induction es as [|[u v] t IH]; intros B HB HBn HBr Hes.
@@ -86,7 +86,7 @@ Definition nx_bip_nodes (L R : Z) : list (gt_str * Z) :=
 Definition nx_bip_edges (L : Z) (es : list (Z * Z)) : list (gt_str * gt_str) :=
   map (fun e => (gt_print_Z (fst e), gt_print_Z (L + snd e))) es.
 
-Theorem bip_nx_roundtrip G : gio_wf G -> io_kind G = KBipartite ->
+Theorem bip_nx_roundtrip G : gio_wf G -> io_kind G = GioBipartite ->
   gio_bip_from_nx gt_str_eqb (io_name G) (nx_bip_nodes (io_n G) (io_r G)) (nx_bip_edges (io_n G) (io_edges G)) = GOk G.
 Proof.
   intros Hwf HK.
